@@ -627,7 +627,8 @@ Lemma InvB_lstep c s l aux s' :
 Proof.
   intros H. unfold lstep.
   destruct (l_pc (lp s l)) as [| r | r | | |] eqn:Epc.
-  - destruct (cur_op (lp s l)) as [[k | r |]|]; [| | |discriminate].
+  - destruct (cur_op (lp s l)) as [[k | r | |]|]; [| | | |discriminate].
+    4: { intros E; apply some_eq in E; subst s'. eapply InvB_sameB; [exact H | sBe]. }
     + destruct (is_free (gmutex s)); [|discriminate].
       intros E; apply some_eq in E; subst s'.
       eapply InvB_sameB; [| apply sameB_advance]. apply InvB_post. exact H.
@@ -636,7 +637,7 @@ Proof.
         intros E; apply some_eq in E; subst s'. eapply InvB_sameB; [exact H | sBe].
       * intros E; apply some_eq in E; subst s'. eapply InvB_sameB; [exact H | sBe].
     + destruct (l_cb (lp s l)).
-      * destruct (l_active (lp s l) =? 0); [| destruct (l_pending (lp s l))];
+      * destruct ((l_active (lp s l) =? 0) || l_stop (lp s l)); [| destruct (l_pending (lp s l))];
           intros E; apply some_eq in E; subst s'; (eapply InvB_sameB; [exact H | sBe]).
       * intros E; apply some_eq in E; subst s'. eapply InvB_sameB; [exact H | sBe].
   - match goal with |- context [if ?b then _ else _] => destruct b eqn:Ec end;
